@@ -159,9 +159,14 @@ def handlers_for(kinds, info, tree, ann, new_tree):
     return hs
 
 
+def norm_tree(t):
+    return {"q": t["q"], "a": t["a"], "ns": sorted(([p or "", u] for p, u in t["ns"])), "t": t["t"] or None,
+            "c": [norm_tree(c) for c in t["c"]], "tl": t["tl"] or None}
+
+
 # ------------------------------------------------------------------ bind.parse on respelled documents
 def gen_respelled(rng, tier):
-    for u, ctx, desc, tree, kind in documents(rng, tier, n_cases(tier, 45, 900), 3, mutate=True):
+    for u, ctx, desc, tree, kind in documents(rng, tier, n_cases(tier, 110, 1500), 3, mutate=True):
         if kind not in ("valid", "ws", "corrupt_text", "corrupt_attr", "unknown_attr", "drop_attr", "bad_xsi_nil", "reorder", "delete", "duplicate"):
             continue
         if kind != "valid" and rng.random() < 0.5:
@@ -181,6 +186,10 @@ def gen_respelled(rng, tier):
             hs = handlers_for(kinds, info, tree, ann, new_tree)
             if not hs:
                 continue
+            if not info["xinclude"] and norm_tree(R.infoset(data)) != norm_tree(new_tree):
+                # self-test of the harness: the respeller's own account of what it wrote
+                # against an independent (expat) reading of the bytes
+                raise RuntimeError("c09_rewrite: respelled document does not have the reported infoset: %r" % data[:400])
             yield {
                 "ctx": ctx, "tree": new_tree, "clazz": "Root", "config": rng.choice(CONFIGS), "desc": desc, "_uni": u.modname,
                 "_kind": kind, "_kinds": info["kinds"], "_doc": b64(data), "_files": {k: b64(v) for k, v in files.items()},
@@ -273,7 +282,7 @@ def mask_any_attrs(v):
         out = {}
         for k, x in v.items():
             if k == "attrs" and isinstance(x, list):
-                out[k] = [[a, ("<name>" if (":" in b or b.startswith("{")) else b)] for a, b in x]
+                out[k] = [[a, ("<name>" if (":" in b or b.startswith("{") or a == R.XSI_TYPE) else b)] for a, b in x]
             else:
                 out[k] = mask_any_attrs(x)
         return out
@@ -310,47 +319,69 @@ def without(a, pattern):
 
 
 def oracle_covered(a, msg):
-    """attribute a failing input to a listed finding by a counterfactual: the failure
-    must disappear when the trigger of that finding is taken out"""
+    """Attribute a failing input to listed findings, result by result, by counterfactuals: the
+    difference must disappear when the trigger of the finding is taken out.  Every differing
+    result needs an explanation; the first finding id is returned."""
     u = uni_of(a)
     r = four_results(a)
-    ref = r["orig/native"]
-    bad = {k for k, v in r.items() if v != ref}
+    found = []
+    ref_key = "orig/native"
+    if r["orig/native"] != r["orig/lxml"]:
+        # the original spelling itself: only the wrapper-declaration defect of the native handler is listed
+        try:
+            t = R.infoset(unb64(a["orig"]))
+            if not wrapper_declares(t, R.annotate(u, t)):
+                return None
+        except Exception:  # noqa: BLE001
+            return None
+        found.append("c09-native-wrapper-declarations")
+        ref_key = "orig/lxml"
+    ref = r[ref_key]
+    m = mask_any_attrs
+    bad_plain = {k for k, v in r.items() if v != ref and k != "orig/native"}
+    bad = {k for k in bad_plain if m(r[k]) != m(ref)}
+    if bad_plain - bad:
+        found.append("c09-any-attr-prefix")
+    cache = {}
 
-    def only_findings(keys_fixed_by):
-        return bad and bad <= keys_fixed_by
+    def counterfactual(pattern):
+        if pattern not in cache:
+            cache[pattern] = four_results(without(a, pattern))
+        return cache[pattern]
 
-    # c09-any-attr-prefix: the objects differ only in wildcard attribute values that look like names
-    if all(mask_any_attrs(v) == mask_any_attrs(ref) for v in r.values()):
-        return "c09-any-attr-prefix"
-    # c09-lxml-text-after-pi: only lxml on the respelling is off, and it is fine without the PIs / comments in text
-    if bad == {"new/lxml"} and ("pi_text" in a["kinds"] or "comment_text" in a["kinds"]):
-        r2 = four_results(without(a, r"<\?t x\?>|<!--t-->"))
-        if r2["new/lxml"] == ref:
-            return "c09-lxml-text-after-pi"
-    # c09-tail-chunk-boundary: fine without the long comment
-    if "bigpad" in a["kinds"] and bad <= {"new/native", "new/lxml"}:
-        r2 = four_results(without(a, r"<!--c{1000,}-->"))
-        if all(r2[k] == ref for k in bad):
-            return "c09-tail-chunk-boundary"
-    # c09-native-xinclude-prefixes: the native handler gives the same (different) result for the
-    # ORIGINAL spelling as soon as process_xinclude is switched on
-    if a["xinclude"] and "new/native" in bad and bad <= {"new/native"}:
-        flagged = py_eq_canon(real_parse(u, a["clazz"], unb64(a["orig"]), "native", a["config"], {}, True))
-        if flagged == r["new/native"]:
-            return "c09-native-xinclude-prefixes"
-    # c09-native-wrapper-declarations: a wrapper element with declarations, native handler only
-    if bad <= {"orig/native", "new/native"} or (r["orig/native"] != r["orig/lxml"] and all(r[k] == r["orig/lxml"] for k in r if k != "orig/native")):
-        for key, data in (("orig", unb64(a["orig"])), ("new", unb64(a["doc"]))):
-            if a["xinclude"] and key == "new":
-                continue
+    def explain(k):
+        handler = k.split("/")[1]
+        if k.startswith("new/") and "bigpad" in a["kinds"]:
+            if m(counterfactual(r"<!--c{1000,}-->")[k]) == m(ref):
+                return "c09-tail-chunk-boundary"
+        if k == "new/lxml" and ("pi_text" in a["kinds"] or "comment_text" in a["kinds"]):
+            if m(counterfactual(r"<\?t x\?>|<!--t-->")[k]) == m(ref):
+                return "c09-lxml-text-after-pi"
+        if k == "new/native" and a["xinclude"]:
+            # with process_xinclude the native handler walks an ElementTree and invents the prefixes:
+            # every document whose content uses prefixes (QName values, xsi:type, name-like wildcard
+            # attribute values) is affected, also without any include in it
             try:
-                t = R.infoset(data)
+                t = R.infoset(unb64(a["orig"]))
+                if prefix_sensitive(t, R.annotate(u, t)):
+                    return "c09-native-xinclude-prefixes"
+            except Exception:  # noqa: BLE001
+                pass
+        if k == "new/native" and not a["xinclude"]:
+            try:
+                t = R.infoset(unb64(a["doc"]))
                 if wrapper_declares(t, R.annotate(u, t)):
                     return "c09-native-wrapper-declarations"
             except Exception:  # noqa: BLE001
                 pass
-    return None
+        return None
+
+    for k in sorted(bad):
+        e = explain(k)
+        if e is None:
+            return None
+        found.append(e)
+    return found[0] if found else None
 
 
 ORACLES = [
